@@ -127,19 +127,42 @@ Theorem leveldb_refines_refuted :
 Proof. vm_compute. discriminate. Qed.
 Print Assumptions leveldb_refines_refuted.
 
-(* PARTIAL: for every history WITHOUT queries (batches well-formed: no ':' tags, an empty key at most in first
-   position), from every content, LevelDB returns what the contract prescribes: Put/Get/GetTags/GetBulk/Delete/Batch
-   in order/Flush/Close+re-open (data kept).  Query results are compared on the implementation only (direct oracle +
-   correspondence with the faithful index model). *)
+(* PARTIAL.  The guard excludes exactly the refuted class: [ldb_run_ok] lets every name:value query through and a
+   name-only query Query(n) only in a state where the index is exact for n (no stored key is still indexed under n
+   although its current tags lack n, i.e. no key was re-Put without n since); batches are well-formed (no ':' tags, an
+   empty key at most in first position); "&&" expressions are not implemented by LevelDB.  From every state whose
+   entries' tag names are all indexed (ldb_inv; true initially and kept by every operation), every such history returns
+   what the contract prescribes, Close + re-open keeps the data. *)
 Theorem leveldb_refines_partial : forall (ops : list op) (s : St leveldb),
-  forallb ldb_ok_op ops = true -> run leveldb s ops = run (spec_prov true) (fst s) ops.
-Proof. intros ops s H. apply (sim_run ldb_ok_op true leveldb (fun s a => fst s = a) ldb_sim); [exact H|reflexivity]. Qed.
+  ldb_inv s -> ldb_run_ok s ops = true -> run leveldb s ops = run (spec_prov true) (fst s) ops.
+Proof. intros ops s. exact (ldb_run_refines ops s). Qed.
 Print Assumptions leveldb_refines_partial.
 
+Corollary leveldb_refines_partial_from_empty : forall ops,
+  ldb_run_ok (init leveldb) ops = true -> run leveldb (init leveldb) ops = run (spec_prov true) [] ops.
+Proof. intros ops H. exact (ldb_run_refines ops (init leveldb) ldb_inv_init H). Qed.
+Print Assumptions leveldb_refines_partial_from_empty.
+
+(* ... and the guard is exact: wherever it refuses a name-only query, LevelDB's answer IS wrong *)
+Theorem leveldb_guard_exact : forall (s : St leveldb) n,
+  index_exact s n = false -> ldb_query s [(n, 0)] <> OQuery (qeval [(n, 0)] (fst s)).
+Proof. exact ldb_query_name_stale. Qed.
+Print Assumptions leveldb_guard_exact.
+
+(* entries alone (no queries), from ANY content, index in any shape *)
+Theorem leveldb_entries_refine_partial : forall (ops : list op) (s : St leveldb),
+  forallb ldb_ok_op ops = true -> run leveldb s ops = run (spec_prov true) (fst s) ops.
+Proof. intros ops s H. apply (sim_run ldb_ok_op true leveldb (fun s a => fst s = a) ldb_sim); [exact H|reflexivity]. Qed.
+Print Assumptions leveldb_entries_refine_partial.
+
 Example leveldb_partial_nonvacuous :
-  let ops := [Put 1 1 [(1, 1)]; Put 1 2 []; GetTags 1; Batch [(2, 3, [(2, 2)]); (1, 0, [])]; Reopen; Get 1; Get 2; GetBulk [1; 2]] in
-  forallb ldb_ok_op ops = true /\ run leveldb (init leveldb) ops = [ODone; ODone; OTags []; ODone; ODone; ONotFound; OVal 3; OBulk [0; 3]].
-Proof. vm_compute. split; reflexivity. Qed.
+  let ops := [Put 1 1 [(1, 1)]; Put 1 2 []; GetTags 1; Query [(1, 1)]; Query [(2, 0)]; Batch [(2, 3, [(2, 2)]); (1, 0, [])];
+              Query [(1, 0)]; Query [(2, 2)]; Reopen; Get 1; Get 2; GetBulk [1; 2]] in
+  ldb_run_ok (init leveldb) ops = true /\
+  ldb_run_ok (init leveldb) [Put 1 1 [(1, 1)]; Put 1 2 []; Query [(1, 0)]] = false /\
+  run leveldb (init leveldb) ops =
+  [ODone; ODone; OTags []; OQuery []; OQuery []; ODone; OQuery []; OQuery [(2, (3, [(2, 2)]))]; ODone; ONotFound; OVal 3; OBulk [0; 3]].
+Proof. vm_compute. repeat split. Qed.
 
 (* non-vacuity: a depth-3 stack, a history with overwrite, batch, delete, conjunction query, re-open *)
 Example stack_nonvacuous :
